@@ -26,6 +26,13 @@ func init() {
 		f := st.declareFun("str_trimprefix", []Sort{SStr, SStr}, SStr)
 		return App(SStr, f, st.scalar(a[0]), st.scalar(a[1])), true
 	})
+	// --- math / time ---------------------------------------------------------
+	reg("math.Pow", nil, func(st *State, fr *Frame, call ssa.CallInstruction, a []SVal) (SVal, bool) {
+		return st.powReal(ToReal(st.scalar(a[0])), ToReal(st.scalar(a[1]))), true
+	})
+	reg("(time.Duration).Seconds", nil, func(st *State, fr *Frame, call ssa.CallInstruction, a []SVal) (SVal, bool) {
+		return App(SReal, "/", ToReal(st.scalar(a[0])), RealLit(1e9)), true
+	})
 	// --- errors ----------------------------------------------------------------
 	newErr := func(st *State, fr *Frame, call ssa.CallInstruction, a []SVal) (SVal, bool) {
 		return st.newErr("err"), true
@@ -92,6 +99,19 @@ func (st *State) atomicInterference(addr *AddrV) {
 	}
 	v := st.fresh("racy", SInt)
 	st.store(addr, v)
+}
+
+// powReal: x^y over the reals, uninterpreted except for positivity of positive bases
+// (float64 rounding is not modelled: listed assumption).
+func (st *State) powReal(x, y *Term) *Term {
+	f := st.declareFun("pow_real", []Sort{SReal, SReal}, SReal)
+	r := App(SReal, f, x, y)
+	st.assume(Implies(Gt(x, RealLit(0)), Gt(r, RealLit(0))))
+	return r
+}
+
+func (st *State) truncReal(x *Term) *Term {
+	return Ite(Ge(x, RealLit(0)), App(SInt, "to_int", x), Sub(IntLit(0), App(SInt, "to_int", App(SReal, "-", x))))
 }
 
 func (st *State) errCode(e *Term) *Term {
@@ -187,6 +207,13 @@ func (st *State) specBuiltin(env *Env, e *Expr) (SVal, types.Type, bool) {
 	case "closed":
 		a, _ := st.elab(env, e.Args[0])
 		return st.ghostGet(st.view(env), "closed", []*Term{st.scalar(a)}, SBool), tBool, true
+	case "pow":
+		a, _ := st.elab(env, e.Args[0])
+		b, _ := st.elab(env, e.Args[1])
+		return st.powReal(ToReal(st.scalar(a)), ToReal(st.scalar(b))), tReal, true
+	case "trunc":
+		a, _ := st.elab(env, e.Args[0])
+		return st.truncReal(ToReal(st.scalar(a))), tInt, true
 	case "errcode":
 		a, _ := st.elab(env, e.Args[0])
 		return st.errCode(st.scalar(a)), tInt, true
